@@ -216,6 +216,10 @@ func (w *World) fetch(nd *Node, hash hotstuff.Hash) (*hotstuff.Block, bool) {
 		if w.viewCut(nd, peer.addr) {
 			continue
 		}
+		if w.adv != nil && w.adv.ll != nil && peer.id == w.adv.ll.z {
+			w.fault("attack:fetch-unanswered")
+			continue // the attacker does not serve blocks
+		}
 		if w.adv != nil {
 			if pb := w.adv.onFetchMalformed(peer, nd, hash); pb != nil {
 				replies[uint32(peer.id)] = pb
